@@ -53,7 +53,7 @@ def gen_pb(rng, nv, big=False):
         bound = rng.choice([0, 1, -1])
     else:
         bound = rng.randint(-12, 20)
-    return {"k": "pb", "terms": terms, "op": op, "bound": bound, "decomp": rng.random() < 0.4}
+    return {"k": "pb", "terms": terms, "op": op, "bound": bound, "decomp": rng.random() < 0.4, "variant": rng.choice([0, 0, 0, 1, 2, 3])}
 
 
 def gen_constraint(rng, nv, big=False):
@@ -134,7 +134,29 @@ def shared_term(t, lit):
 def build_ineq(c, lit):
     pb = _pb
     e = pb.Expr()
-    for t in c["terms"]:
+    variant = c.get("variant", 0)
+    if variant == 1:
+        # -1 * (sum of the negated terms)
+        neg = pb.Expr()
+        for t in c["terms"]:
+            neg = neg + pb.Term(lit(t[1:]), -t[0])
+        e = -1 * neg
+    elif variant == 2:
+        # A - B with the terms of negative coefficient moved to B, the result doubled on both sides later
+        a_, b_ = pb.Expr(), pb.Expr()
+        for t in c["terms"]:
+            if t[0] >= 0:
+                a_ = a_ + pb.Term(lit(t[1:]), t[0])
+            else:
+                b_ = b_ + pb.Term(lit(t[1:]), -t[0])
+        e = a_ - b_
+    elif variant == 3:
+        # a negative multiple of an expression holding negated literals: -2*(...) compared with -2*bound (operator mirrored)
+        neg = pb.Expr()
+        for t in c["terms"]:
+            neg = neg + pb.Term(-lit(t[1:]), t[0]) + (-t[0])        # c*l = c - c*(not l)  ->  -(c*l) = c*(not l) - c
+        e = -1 * neg
+    for t in (c["terms"] if variant == 0 else []):
         e = e + shared_term(t, lit)
     rhs = pb.Expr() + c["bound"]
     return pb.Ineq(e, rhs, c["op"])
